@@ -110,6 +110,23 @@ __CPROVER_ensures((sq_thrown==1) == (self->size!=other->size))
 //@SUB /SUTrace<>\s*\(\s*\*this\s*,\s*other\s*\)/sq_SUTrace(self,other)/ min=1
 }
 
+/* ---- every binary operator+ / operator- overload found in SUNalg.h (generated per overload by props/suvfam.py: @@..@@ are filled in) ----
+ * Generic contract from the overload's own signature: rejection exactly for mismatched sizes; the proxy's operands are (this, other) -- for the commutative
+ * sum also (other, this) -- and an operand is flagged movable only if the signature takes it as an rvalue (THIS_RV: `&&`-qualified, OTHER_RV: SU_vector&&). */
+#ifdef GEN_OVERLOAD
+void op_generic(struct proxy* ret, const struct SU_vector* self, const struct SU_vector* other)
+__CPROVER_requires(__CPROVER_w_ok(ret,sizeof(*ret)) && __CPROVER_r_ok(self,sizeof(*self)) && __CPROVER_r_ok(other,sizeof(*other)) && sq_thrown==0)
+__CPROVER_assigns(*ret, sq_thrown)
+__CPROVER_ensures(sq_thrown==0 || sq_thrown==1)
+__CPROVER_ensures((sq_thrown==1) == (self->size!=other->size))                 /* C14: mismatched dimensions are rejected */
+__CPROVER_ensures(sq_thrown==0 ==> ret->family==GEN_FAMILY)
+__CPROVER_ensures(sq_thrown==0 ==> ((ret->suv1==self && ret->suv2==other && ((ret->flags&SQ_Arg1Movable)==0 || THIS_RV) && ((ret->flags&SQ_Arg2Movable)==0 || OTHER_RV) && (ret->flags&~3)==0)
+                                 || (GEN_COMMUTATIVE && ret->suv1==other && ret->suv2==self && ((ret->flags&SQ_Arg1Movable)==0 || OTHER_RV) && ((ret->flags&SQ_Arg2Movable)==0 || THIS_RV) && (ret->flags&~3)==0)))
+{
+//@BODY file=include/SQuIDS/SUNalg.h sig=/@@SIG@@/ nth=@@NTH@@ rules=common,guards,suv_method
+}
+void h_op_generic(void){ struct proxy r; struct SU_vector a,b; sq_thrown=0; op_generic(&r,&a,&b); __CPROVER_assert(0,"REACH end of harness"); }
+#endif
 #define HG(f) void h_##f(void){ struct proxy r; struct SU_vector a,b; sq_thrown=0; f(&r,&a,&b); __CPROVER_assert(0,"REACH end of harness"); }
 HG(op_plus_0) HG(op_plus_1) HG(op_plus_2) HG(op_plus_3) HG(op_minus_0) HG(op_minus_1) HG(f_iCommutator) HG(f_ACommutator)
 HG(f_Elementwise_0) HG(f_Elementwise_1) HG(f_Elementwise_2) HG(f_Elementwise_3)
